@@ -16,7 +16,7 @@ CHECKS = {
         'engine': 'E-enum',
         'technique': 'bounded-exhaustive enumeration of ASTs (complete parent x operand-slot x child matrix, all clause subsets and FROM forms, all literal forms) printed by an independent precedence-ladder printer and re-parsed; differential of the shipped parser against a parser regenerated from the grammar on accepted and rejected texts',
         'design_ref': 'DESIGN.md section 4, C06',
-        'text': 'The complete depth-2 matrix (30 parent kinds x 54 operand slots x 42 children = 2,268 cells; thorough: depth 3 over 54x54 slot pairs), n-ary AND/OR shapes, every literal spelling (incl. strings holding TAB / CR / form feed / either quote) in 4-6 '
+        'text': 'The complete depth-2 matrix (30 parent kinds x 54 operand slots x 42 children = 2,268 cells; thorough: depth 3 over 54x54 slot pairs), n-ary AND/OR shapes, every literal spelling (incl. strings holding TAB / CR / form feed / either quote, decimals beyond 28 digits, tight integer subtraction chains and runs of minus signs) in 4-6 '
                 'contexts and all lists of 1..3 literals, 705 identifier cases incl. every reserved word followed by a digit or underscore, all 192 clause subsets, 46 FROM forms, BALANCES/JOURNAL/PRINT forms, '
                 'each printed with minimal and full parentheses in rotating spellings (case, whitespace, comments): parse(print(ast)) == ast. The parser is regenerated from bql.ebnf with '
                 'tatsu.to_python_sourcecode on every run and both parsers must give the same AST or the same rejection (position included) on the printed texts and on 6.6k rejected texts (all token '
@@ -38,7 +38,7 @@ CHECKS = {
         'technique': 'exhaustive enumeration of the operator/function x operand-type matrix, of the product of clause-rule dimensions and of short token sequences / single-token edits, against an independently written reference type checker and an exception-class invariant',
         'design_ref': 'DESIGN.md section 4, C05',
         'text': '(a) 56k compile-only cases: every operator node x every ordered operand-type tuple over 14 types (binary 14x14, BETWEEN 14^3), every function name in the live registry x every argument tuple of '
-                'length 0..2 (3 over 8 types), attributes and subscripts on every type, and the operator / function cases of <= 3 operands again over CONSTANT operands (compile-time folding path): accept/reject must equal vt/ref/typing.py (overload resolution re-implemented from the declared signatures; a committed '
+                'length 0..2 (3 over 8 types), attributes and subscripts on every type, and the operator / function cases of <= 3 operands again over CONSTANT operands (compile-time folding path), IN over a wildcard sub-query: accept/reject must equal vt/ref/typing.py (overload resolution re-implemented from the declared signatures; a committed '
                 'snapshot of 237 signatures is the lower bound). (b) 508k statements: 21 target kinds x 5 WHERE x 16 GROUP BY x 4 HAVING x 12 ORDER BY core product, every other dimension (15 FROM forms incl. '
                 'OPEN/CLOSE orders, 9 PIVOT BY, COALESCE, IN arity, parameters, duplicate names, DISTINCT, LIMIT) crossed with a reduced core: accepted iff all rules of the property hold; accepted '
                 'statements are executed. (c) 15k texts: all token sequences of length <= 2 over 52 tokens, all single-token edits of a 42-statement corpus, literal edge cases. Every rejection must be '
@@ -72,7 +72,7 @@ CHECKS = {
         'text': 'Every overload of every operator, function and aggregate in the live registries x every concrete instantiation of `Any` slots (13 column types incl. Amount, Position, Inventory, interval, '
                 'set, list, dict, object) and bool for int slots, on tables holding the full product of the column alphabets; depth 2: every column slot of every such program replaced by every depth-1 '
                 'producer whose ANNOUNCED datatype is the slot type (35k programs); every attribute path of every structured type, dict subscripts, implicit casts of object operands, FROM/IN subquery '
-                'columns, COALESCE with a NULL literal at every position; `*` and all columns of every table over the ledger family (n <= 1 quick, <= 2 thorough), for the postings table also under 5 OPEN / CLOSE / CLEAR qualifiers (synthesised rows). Invariants: every cell is NULL or an instance of the announced datatype, no '
+                'columns, COALESCE with a NULL literal at every position, the row-context functions over nullable arguments; `*` and all columns of every table over the ledger family (n <= 1 quick, <= 2 thorough), for the postings table also under 5 OPEN / CLOSE / CLEAR qualifiers (synthesised rows). Invariants: every cell is NULL or an instance of the announced datatype, no '
                 'non-data exception escapes execute, render_text / render_csv / numberify accept the result.',
         'note': 'Trusted: beancount data model. Data errors (ValueError, ArithmeticError, re.error, KeyError, IndexError) are not type errors: failing rows are isolated and dropped. Open known findings: '
                 'min/max over unorderable values, truth value of Inventory. Membership of amount-like values in collections of foreign element types is outside (beancount equality raises).',
@@ -184,7 +184,7 @@ CHECKS = {
         'design_ref': 'DESIGN.md section 4, C02',
         'text': 'ALL row sequences of length <= 3 (quick) / <= 4 (thorough) over a 9-letter (k, v) row alphabet with NULLs, for value types int, Decimal, str, date, bool, and over an 18-letter '
                 '(k, m, v) alphabet for two-key statements, x 14 one-key and 9 two-key grouping forms (by column, alias, index, hidden, implicit, none, key expressions, repeated keys, key '
-                'order) x aggregate lists (all 18 at once and each alone, arithmetic over aggregates) x WHERE x HAVING menus, HAVING x LIMIT without ORDER BY; group-wise count/sum vs ungrouped totals differential; and every '
+                'order) x aggregate lists (all 18 at once and each alone, arithmetic over aggregates) x WHERE x HAVING menus, HAVING x LIMIT without ORDER BY, every grouping shape without aggregates, aggregates over tables whose row objects are falsy; group-wise count/sum vs ungrouped totals differential; and every '
                 'ordered pair of hashable columns of every Beancount-backed table kind (hidden keys, alias + hidden key, uncovered target rejected).',
         'note': 'Trusted: vt/ref/select.py + vt/ref/expr.py. sum(bool) compared by numeric value. The table-kind sweep partitions the rows returned by the non-aggregate SELECT c1, c2.',
     },
@@ -194,7 +194,7 @@ CHECKS = {
         'design_ref': 'DESIGN.md section 4, C03',
         'text': 'ALL tables of <= 3 (quick) / <= 4 (thorough) rows over a 9-letter alphabet with NULLs and ties (row id makes stability observable) x ALL lists of 1..3 distinct keys out of 4 '
                 'candidates with every ASC/DESC vector (thorough adds all 4-key lists) x key forms (position, alias, repeated expression, hidden expression, mixed) x DISTINCT x LIMIT '
-                '{none,0,1,2,>size}; aggregate queries ordered by group keys / aggregates / hidden aggregates, DISTINCT over grouped queries whose key is not selected, DISTINCT over rows with colliding hashes; every ordered pair of orderable columns of every Beancount table kind with a hidden '
+                '{none,0,1,2,>size}; aggregate queries ordered by group keys / aggregates / hidden aggregates, DISTINCT over grouped queries whose key is not selected, DISTINCT over rows with colliding hashes, ORDER BY an alias shadowing a column, positional keys over duplicated names; every ordered pair of orderable columns of every Beancount table kind with a hidden '
                 'ORDER BY key; IN-subquery targets combined with a different IN-subquery ordering key.',
         'note': 'Trusted: vt/ref/select.py (functools.cmp_to_key comparator, sorted() stability). Unorderable keys and unhashable rows are outside the property.',
     },
